@@ -623,9 +623,10 @@ package parser
 //@   loop 1 decreases 2 * (len(p.lexer.input) - p.lexer.pos) + ite(p.current.Type != TokenEOF, 1, 0)
 
 //@ func (*Parser).parseCommodityDirective
-//@   props C06
+//@   props C06 C08
 //@   requires ParInv(p)
 //@   ensures [inv] ParInv(p) && PFrame(p) && MuLe(p)
+//@   ensures [C08:commodity_range] typeis(result, "ast.CommodityDirective") && as(result, "ast.CommodityDirective").Commodity.Range.Start.Line != 0 ==> PosIn(as(result, "ast.CommodityDirective").Commodity.Range.Start, len(p.lexer.input)) && PosIn(as(result, "ast.CommodityDirective").Commodity.Range.End, len(p.lexer.input))
 //@   modifies p.current, p.errors, p.defaultYear, p.lexer.pos, p.lexer.column, p.lexer.line, p.lexer.atStart
 //@   loop 1 invariant ParInv(p) && PFrame(p) && MuLe(p)
 //@   loop 1 decreases 2 * (len(p.lexer.input) - p.lexer.pos) + ite(p.current.Type != TokenEOF, 1, 0)
